@@ -25,7 +25,7 @@ mod wipe;
 pub fn spec() -> PropSpec {
     PropSpec {
         id: "C12",
-        rule: "cases: one argument value a per case (0, 1, 2, MAX, MAX-1, only the top limb / only the top byte set, even with arbitrary high limbs, odd, 2^k, small bit0/bit1 patterns, low and top byte of opposite parity, generic edge shapes) plus valid operands x,y (non-zero) and p,q (odd), a primitive, a selection bit and malformed-encoding choices; every producer of NonZero<T>/Odd<T> of the type (new, new_unwrap, to_nz/to_odd + ConstCtOption expect/unwrap/into, from_u8..u128 / From<NonZeroU*>, from_be/le_bytes, from_be/le_byte_array, from_be/le_hex, ONE/MAX/Default, CtOption map/unwrap_or, conditional_select/assign/swap and ct_select/assign/swap between valid values, as_nz_ref, abs_sign, widen, Odd<Uint> -> Odd<BoxedUint>, Monty params modulus(), serde bincode+JSON, Random/try_random on scripted streams, zeroize) is run on it and the invariant (value != 0 / value odd) or the documented failure is asserted; decoders are compared with a positional oracle of the stated byte order. non-trivial: a is 0, 1, 2, MAX or MAX-1, or a is even, or (sub-checks that decode bytes / hex / serde: limb, uint/producers, uint/decode+monty, serde) the big-endian byte string of a differs from its little-endian one; Int: a = MIN; or a malformed hex string / encoding was drawn, the extra byte string is all-zero, the inner value parsed by serde is zero or even; RNG sub-checks: the stream is empty or starts with a zero or even word, the first draw of the target type is zero (rejection taken), a finite stream ends in the RNG error, boxed bit_length = 0 or 1 mod 64; zeroize, const table and source scan: every case. surface/* sub-checks: the same rules with the inner types Wrapping<Uint>, Wrapping<Limb>, Wrapping<BoxedUint>, ConstMontyForm (representative zero, unreduced wire value, or a stream starting with a zero word count as well) and the existing case functions at 3, 5, 6, 7 limbs. distinct by all recorded inputs.",
+        rule: "cases: one argument value a per case (0, 1, 2, MAX, MAX-1, only the top limb / only the top byte set, even with arbitrary high limbs, odd, 2^k, small bit0/bit1 patterns, low and top byte of opposite parity, generic edge shapes) plus valid operands x,y (non-zero) and p,q (odd), a primitive, a selection bit and malformed-encoding choices; every producer of NonZero<T>/Odd<T> of the type (new, new_unwrap, to_nz/to_odd + ConstCtOption expect/unwrap/into, from_u8..u128 / From<NonZeroU*>, from_be/le_bytes, from_be/le_byte_array, from_be/le_hex, ONE/MAX/Default, CtOption map/unwrap_or, conditional_select/assign/swap and ct_select/assign/swap between valid values, as_nz_ref, abs_sign, widen, Odd<Uint> -> Odd<BoxedUint>, Monty params modulus(), serde bincode+JSON, Random/try_random on scripted streams, zeroize) is run on it and the invariant (value != 0 / value odd) or the documented failure is asserted; decoders are compared with a positional oracle of the stated byte order. non-trivial: a is 0, 1, 2, MAX or MAX-1, or a is even, or (sub-checks that decode bytes / hex / serde: limb, uint/producers, uint/decode+monty, serde) the big-endian byte string of a differs from its little-endian one; Int: a = MIN; or a malformed hex string / encoding was drawn, the extra byte string is all-zero, the inner value parsed by serde is zero or even; RNG sub-checks: the stream is empty or starts with a zero or even word, the first draw of the target type is zero (rejection taken), a finite stream ends in the RNG error, boxed bit_length = 0 or 1 mod 64; zeroize, const table and source scan: every case. surface/* sub-checks: the same rules with the inner types Wrapping<Uint>, Wrapping<Limb>, Wrapping<BoxedUint>, ConstMontyForm (representative zero, unreduced wire value, or a stream starting with a zero word count as well) and the existing case functions at 3, 5, 6, 7 limbs. distinct by all recorded inputs. Since seeding round 4: malformed hex with non-ASCII characters; Deserialize::deserialize_in_place over live valid wrappers (single and Vec): valid afterwards whatever the outcome.",
         assumptions: vec![
             "the invariant is observed through Deref / get / as_ref and as_words only (no crate arithmetic on the oracle side)".into(),
             "num-bigint from_bytes_be/le give the positional value of a byte string".into(),
